@@ -158,6 +158,11 @@ def rule_p1(ctx: Ctx) -> None:
                 ctx.note(f"C11-P1 unreviewed counting method {name}")
             continue
         if cf is None:
+            # sum(<k> for _ in self.L(..)) with k != 1 is not a count
+            if isinstance(term, tuple) and term and term[0] == "call" and term[1] is None and term[2] == "sum" and len(term[3]) == 1 and isinstance(term[3][0], tuple) and term[3][0][0] == "comp" \
+                    and term[3][0][4][0] == "const" and term[3][0][4][1] not in ("1", "True"):
+                ctx.violation("C11-P1", fi, fi.node, f"{name} adds {term[3][0][4][1]} for every element of its listing: it is not the size of the listing")
+                continue
             ctx.note(f"C11-P1: {name} is no longer derived from its listing (independent algorithm now): undecided, not a violation")
             continue
         listing, args, filtered = cf
@@ -359,10 +364,25 @@ def check_transformed(ctx: Ctx, fi: FuncInfo) -> None:
         ctx.violation("C11-Q1", fi, lp.body[0], f"a pair is reported when `{unparse(test)[:90]}`; the defining identity is stat1(k) == stat2(v) for every (k, v) of the bijection")
         return
     act = unparse(lp.body[0].body[0]) if len(lp.body[0].body) == 1 else ""
-    if f"[{s1}.name].append({s2}.name)" not in act:
-        ctx.violation("C11-Q1", fi, lp.body[0], f"a transforming pair is recorded as `{act[:70]}`, not as stat1.name -> stat2.name")
-        return
+    if f"[{s1}.name].append({s2}.name)" not in act and f".setdefault({s1}.name, []).append({s2}.name)" not in act:
+        if f"[{s2}.name].append({s1}.name)" in act or f"[{s1}.name].append({s1}.name)" in act or f"[{s2}.name].append({s2}.name)" in act:
+            ctx.violation("C11-Q1", fi, lp.body[0], f"a transforming pair is recorded as `{act[:70]}`, not as stat1.name -> stat2.name")
+            return
+        raise AnalysisError(f"{fi.where}: how a transforming pair is recorded (`{act[:70]}`) is not recognised")
     ctx.ok("C11-Q1", fi.where, "check_all_transformed pairs every statistic with every statistic under stat1(k) == stat2(v)", lp, fi)
+    # the table that is filled is the one that is returned
+    import re as _re
+
+    mt = _re.match(r"(\w+)\[", act)
+    tbl = mt.group(1) if mt else None
+    last = fi.body[-1]
+    inits = [st for st in fi.body if isinstance(st, (ast.Assign, ast.AnnAssign)) and st.value is not None and unparse(st.targets[0] if isinstance(st, ast.Assign) else st.target) == tbl]
+    if tbl is None or not inits or fi.body.index(inits[0]) > fi.body.index(lp):
+        ctx.violation("C11-Q1", fi, lp, f"the table `{tbl}` the pairs are recorded in is not created before the loop")
+    elif isinstance(last, ast.Return) and last.value is not None and unparse(last.value) in (tbl, f"dict({tbl})"):
+        ctx.ok("C11-Q1", fi.where, f"the recorded table `{tbl}` is returned", last, fi)
+    else:
+        ctx.violation("C11-Q1", fi, last, f"check_all_transformed does not end by returning the recorded table `{tbl}`")
 
 
 def check_distribution(ctx: Ctx, fi: FuncInfo) -> None:
@@ -811,6 +831,8 @@ def _variants():
         V("preservations-negated", replace_expr(ST, "PermutationStatistic.check_all_preservations", "stats.preserved_in(bijection)", "not stats.preserved_in(bijection)"), "fire", "C11-Q1"),
         V("equidistributed-short-range", replace_expr(ST, "PermutationStatistic.equally_distributed", "range(n + 1)", "range(n)"), "fire", "C11-Q1"),
         V("equidistributed-same-class", replace_expr(ST, "PermutationStatistic.equally_distributed", "stat.distribution_for_length(i, class2)", "stat.distribution_for_length(i, class1)"), "fire", "C11-Q1"),
+        V("count-adds-two", replace_expr(PE, "Perm.count_ltrmax", "sum((1 for _ in self.ltrmax()))", "sum((2 for _ in self.ltrmax()))"), "fire", "C11-P1"),
+        V("transformed-result-dropped", replace_stmt(ST, "PermutationStatistic.check_all_transformed", "return dict(transf)", "return {}"), "fire", "C11-Q1"),
         V("transformed-same-side", replace_expr(ST, "PermutationStatistic.check_all_transformed", "stat1.func(k) == stat2.func(v)", "stat1.func(k) == stat2.func(k)"), "fire", "C11-Q1"),
         V("transformed-one-shot", replace_expr(ST, "PermutationStatistic.check_all_transformed", "list(cls._get_all())", "cls._get_all()"), "fire", "C11-I1", "the original defect"),
         V("distribution-filtered", replace_expr(ST, "PermutationStatistic.distribution_for_length", "Counter((self.func(p) for p in iterator))", "Counter((self.func(p) for p in iterator if len(p) > 1))"), "fire", "C11-Q1"),
